@@ -68,7 +68,8 @@ def tokens_for(words, reserved, user_res):
                  "(" + w + ")", w + w, w[:-1] + w, w + "," + w.upper()]
         res = sorted(r for r in reserved if w.lower() in r)[:2]
         for r in res:
-            toks += [r, r.upper(), r.title(), r + "x"]
+            toks += [r, r.upper(), r.title(), r + "x", r + ";", '"' + r + '"', "[" + r + ",", "{" + r.title() + "}",
+                     "(" + r + ")", r + ":"]
     if user_res:
         toks += [user_res, user_res.lower(), "x" + user_res]
     toks += ["interface", "Ethernet1/2", "10.1.2.3"]
